@@ -45,7 +45,8 @@ def shard(ctx, budget_s):
             # non-IN/A question somewhere
             if qs:
                 k = rng.randrange(len(qs))
-                t, c = rng.choice([(16, 1), (28, 1), (255, 1), (1, 3), (1, 255), (0, 0), (2, 1), (1, 0), (0x0101, 1), (1, 0x0101)])
+                t, c = rng.choice([(16, 1), (28, 1), (255, 1), (1, 3), (1, 255), (0, 0), (2, 1), (1, 0), (0x0101, 1), (1, 0x0101), (1, 0x8001), (0x8001, 1),
+                                   (1, 0x0100), (0x0100, 1), (1, rng.randrange(2, 65536)), (rng.randrange(2, 65536), 1), (rng.getrandbits(16) | 2, rng.getrandbits(16) | 2)])
                 bad = list(qs)
                 bad[k] = qs[k][:-4] + struct.pack("!HH", t, c)
                 m = dns.header(id_, flags, len(bad)) + b"".join(bad)
@@ -77,4 +78,4 @@ def shard(ctx, budget_s):
 def run(tier, seed):
     v = core.Verdict(PROP, tier, seed)
     v.merge(core.run_shards(shard, PROP, tier, seed, budget_s=20 if tier == "quick" else 200))
-    return v.finish(RULE, floor=5000, assumptions=ASSUME)
+    return v.finish(RULE, floor=500, assumptions=ASSUME)
